@@ -594,8 +594,7 @@ def get_image(token, base_url):
 
     parsed_url = get_url(token, base_url)
     if parsed_url:
-        assert parsed_url[0] == 'url'
-        if parsed_url[1][0] == 'external':
+        if parsed_url[0] == 'url' and parsed_url[1][0] == 'external':
             return 'url', parsed_url[1][1]
     if token.type != 'function':
         return
